@@ -343,13 +343,16 @@ class Unit:
 
         if unit[-1] == 'L':
             prefix_value = Unit.convert_prefix_to_multiplier(unit[:-1])
-            result = value * Unit.convert_prefix_to_multiplier(config.volume_storage_unit[:-1]) / prefix_value
+            storage_value = Unit.convert_prefix_to_multiplier(config.volume_storage_unit[:-1])
         elif unit[-3:] == 'mol':  # moles
             prefix_value = Unit.convert_prefix_to_multiplier(unit[:-3])
-            result = value * Unit.convert_prefix_to_multiplier(config.moles_storage_unit[:-3]) / prefix_value
+            storage_value = Unit.convert_prefix_to_multiplier(config.moles_storage_unit[:-3])
         else:
             raise ValueError("Invalid unit.")
-        return round(result, config.internal_precision)
+        result = value * storage_value / prefix_value
+        # rounded to what the internal precision resolves in the storage unit (1e-10 umol is 1e-16 mol), never coarser
+        extra_digits = max(0, round(numpy.log10(prefix_value / storage_value)))
+        return round(result, config.internal_precision + extra_digits)
 
     @staticmethod
     def convert_from_storage_to_standard_format(what: Substance | Container, quantity: float) -> Tuple[float, str]:
